@@ -218,6 +218,36 @@ fn run(shard: &Shard, rep: &mut Report) {
         }
         check_c05(c, tol)
     });
+    run_moves(shard, rep);
+}
+
+fn moves_case() -> impl proptest::strategy::Strategy<Value = ConvCase> {
+    use proptest::prelude::*;
+    let edits = prop_oneof![
+        10 => crate::prop_c04::edit_strategy(),
+        3 => (prop_oneof![Just(0u16), Just(40000u16), any::<u16>()], any::<u16>()).prop_map(|(sec, folder)| crate::engine_sync::Edit::MoveSecret { sec, folder }),
+        1 => "[a-z]{1,3}".prop_map(|name| crate::engine_sync::Edit::CreateFolder { name }),
+    ];
+    crate::prop_c04::case_strategy_with(8, edits.boxed()).prop_map(|mut c| {
+        // a second folder in the shared history so that moves have a destination
+        c.pre.insert(0, crate::engine_sync::Edit::CreateFolder { name: "dest".into() });
+        c
+    })
+}
+
+fn run_moves(shard: &Shard, rep: &mut Report) {
+    let t = shard.tier;
+    drive(shard, rep, "merge-moves", shard.share(t.pick(160, 3_000)), moves_case(), |c| {
+        let mut tol = tolerate_for(shard, hash_of(c));
+        if !shard.has_known(K_DUP) {
+            tol.avoid = false;
+        }
+        let (mut info, r) = check_c05(c, tol);
+        if c.offline.iter().flatten().any(|e| matches!(e, crate::engine_sync::Edit::MoveSecret { .. })) {
+            info.class("offline-move-between-folders");
+        }
+        (info, r)
+    });
 }
 
 fn replay(_shard: &Shard, _sub: &str, case: &Value) -> CheckResult {
